@@ -74,7 +74,12 @@ def BFFM2_EINOx(
     x_eval = np.log10(ff_eval)
 
     # Single log–log regression
-    slope, intercept = np.polyfit(x_cal, y_cal, 1)
+    if np.ptp(x_cal) == 0.0:
+        # All calibration flows equal: there is no slope information, so use
+        # the mean level.
+        slope, intercept = 0.0, float(np.mean(y_cal))
+    else:
+        slope, intercept = np.polyfit(x_cal, y_cal, 1)
     NOxEI_sl = 10.0 ** (x_eval * slope + intercept)  # g/kg fuel at SLS-equivalent
 
     # Apply the humidity/θ/δ correction (Eqs. 44–45) [for cruise conditions]
